@@ -506,8 +506,14 @@ func (e *EdgeQuery) addResult(r EdgeQueryResult) {
 }
 
 func (e *EdgeQuery) maybeAddResult(shape Shape, shapeID, edgeID int32) {
-	if _, ok := e.testedEdges[ShapeEdgeID{shapeID, edgeID}]; e.avoidDuplicates && !ok {
-		return
+	if e.avoidDuplicates {
+		// Skip edges that were already tested (in another index cell), and
+		// remember this one.
+		key := ShapeEdgeID{shapeID, edgeID}
+		if _, ok := e.testedEdges[key]; ok {
+			return
+		}
+		e.testedEdges[key] = 1
 	}
 	edge := shape.Edge(int(edgeID))
 	dist := e.distanceLimit
